@@ -150,6 +150,10 @@ func Main(prop string) {
 		total.Merge(st)
 	}
 	st := total
+	if st.Diverged > 0 || st.Unreproducible > 0 {
+		r.Cap(fmt.Sprintf("%d executions diverged from their prefix and %d findings did not reproduce (uncaptured nondeterminism; nothing was concluded from them): %v", st.Diverged, st.Unreproducible, st.Notes))
+	}
+	r.Extra["diverged_executions"], r.Extra["unreproducible_findings"] = st.Diverged, st.Unreproducible
 	r.AddEval(st.Executions)
 	r.States = st.Points // decision states visited
 	r.Transitions = st.Steps
